@@ -316,13 +316,27 @@ func VerifC14_Hooks() {
 
 	if rt.Bool("doput") {
 		nr := c14NewRec("a/x", 7, false, false)
-		err := iface.Put(nr)
+		// (possibly through an interface with a read cache)
+		cached := rt.Bool("interface-with-read-cache")
+		if cached {
+			iface = NewInterface(&Options{Local: true, Internal: true, CacheSize: 4})
+		}
+		var err error
+		if rt.Bool("put-new") {
+			err = iface.PutNew(nr)
+		} else {
+			err = iface.Put(nr)
+		}
 		called := len(h.calls) == 1 && h.calls[0] == "preput"
 		rt.Assert(called == rt.All(active, h.put), "hooks/preput-called-iff-declared-and-matching")
 		stored, _ := c.storage.Get("a/x")
 		if rt.All(active, h.put, h.veto == 3) {
 			rt.Assert(errors.Is(err, errVeto), "hooks/put-veto-returns-hook-error")
 			rt.Assert(stored == record.Record(seed), "hooks/put-veto-leaves-storage-unchanged")
+			// and the same interface goes on reading what is stored, not the refused record
+			h.veto, h.pre, h.post = 0, false, false
+			got, gerr := iface.Get("t:a/x")
+			rt.Assert(gerr == nil && got == record.Record(seed), "hooks/refused-record-is-not-read-back")
 		} else {
 			rt.Assert(err == nil, "hooks/put-ok")
 			if rt.All(active, h.put, h.replace != nil) {
